@@ -1,6 +1,6 @@
 (* Proofs for property C19 about the model Algo/BBHash.v. *)
 From Coq Require Import NArith List Bool Arith Lia Relations Permutation.
-From DBG Require Import Spec.Dna Spec.GraphIndex Algo.BBHash.
+From DBG Require Import Spec.Dna Spec.GraphIndex Algo.BBHash Proofs.ListFacts Proofs.KmerLanes.
 Import ListNotations.
 Local Open Scope nat_scope.
 
@@ -767,3 +767,178 @@ Section Lookup.
       apply in_combine_l in Hv. destruct (T k Hv) as (r & Er). congruence.
   Qed.
 End Lookup.
+
+(* ------------------------------------------------------------------ the two indexes of a graph *)
+Lemma Forall_firstn' {A} (P : A -> Prop) n : forall l, Forall P l -> Forall P (firstn n l).
+Proof. induction n; intros l H; cbn; auto. destruct H; cbn; auto. Qed.
+Lemma Forall_skipn' {A} (P : A -> Prop) n : forall l, Forall P l -> Forall P (skipn n l).
+Proof. induction n; intros l H; cbn; auto. destruct H; cbn; auto. Qed.
+
+Lemma term_kmer_ok K s d : wf_dna s -> K <= length s -> length (term_kmer K s d) = K /\ wf_dna (term_kmer K s d).
+Proof.
+  intros W L. destruct d; unfold term_kmer, first_kmer, last_kmer, kmer_at; split;
+    try (apply sub_length; lia); unfold sub; apply Forall_firstn', Forall_skipn'; auto.
+Qed.
+
+Lemma dna_compare_refl a : dna_compare a a = Eq.
+Proof. induction a as [|x a IH]; cbn; auto. rewrite N.compare_refl. auto. Qed.
+Lemma dna_eqb_eq a b : dna_eqb a b = true <-> a = b.
+Proof.
+  unfold dna_eqb. split.
+  - destruct (dna_compare a b) eqn:E; try discriminate. intros _. apply dna_compare_eq; auto.
+  - intros ->. rewrite dna_compare_refl. auto.
+Qed.
+
+Lemma enc_inj K a b : length a = K -> length b = K -> wf_dna a -> wf_dna b -> enc a = enc b -> a = b.
+Proof.
+  unfold enc. intros La Lb Wa Wb E. rewrite <- (decode_rank K a La Wa), <- (decode_rank K b Lb Wb), E. reflexivity.
+Qed.
+
+Lemma in_combine_seq {A} (x : A) d : forall l a i,
+  In (x, i) (combine l (seq a (length l))) <-> (a <= i < a + length l /\ nth (i - a) l d = x).
+Proof.
+  induction l as [|y l IH]; intros a i; cbn [combine length seq In].
+  - split; [tauto|lia].
+  - rewrite IH. split.
+    + intros [E|(R & E)].
+      * inversion E; subst. rewrite Nat.sub_diag. cbn. split; [lia|auto].
+      * split; [lia|]. replace (i - a) with (S (i - S a)) by lia. auto.
+    + intros (R & E). destruct (Nat.eq_dec i a) as [->|Ne].
+      * left. rewrite Nat.sub_diag in E. cbn in E. subst; auto.
+      * right. split; [lia|]. replace (i - a) with (S (i - S a)) in E by lia. auto.
+Qed.
+
+Lemma index_where_some {A} (p : A -> bool) d : forall l i, index_where p l = Some i ->
+  i < length l /\ p (nth i l d) = true.
+Proof.
+  induction l as [|x l IH]; intros i H; cbn in H; [discriminate|].
+  destruct (p x) eqn:P; [inversion H; subst; cbn; split; [lia|auto]|].
+  destruct (index_where p l) as [j|]; [|discriminate]. inversion H; subst. destruct (IH j eq_refl). cbn. split; [lia|auto].
+Qed.
+Lemma index_where_none {A} (p : A -> bool) : forall l, index_where p l = None -> forall x, In x l -> p x = false.
+Proof.
+  induction l as [|y l IH]; intros H x Hx; [destruct Hx|]. cbn in H.
+  destruct (p y) eqn:P; [discriminate|]. destruct (index_where p l); [discriminate|].
+  destruct Hx as [->|Hx]; auto.
+Qed.
+
+Section GraphLookup.
+  Variable h : nat -> nat -> key -> nat.
+  Variable sz : nat -> nat.
+  Hypothesis h_lt : forall iter n k, h iter (sz n) k < sz n.
+  Variable K : nat.
+
+  (* what boomphf requires of a graph: node sequences are DNA of length >= K, and no two nodes share their
+     first k-mer, nor their last k-mer (duplicate-free key sets) *)
+  Definition good_graph (g : base_graph) : Prop :=
+    Forall (fun s => wf_dna s /\ K <= length s) (g_seqs g) /\
+    NoDup (end_keys K g DLeft) /\ NoDup (end_keys K g DRight).
+
+  Lemma end_keys_map g side : end_keys K g side = map enc (ends_of K (g_seqs g) side).
+  Proof. unfold end_keys, ends_of. rewrite map_map. reflexivity. Qed.
+
+  Lemma index_lookup g side (m : @bhm nat) kmer : good_graph g -> length kmer = K -> wf_dna kmer ->
+    bhm_new h sz (end_keys K g side) (node_ids g) = Some m ->
+    bhm_get h m (enc kmer) = Some (end_index (ends_of K (g_seqs g) side) kmer).
+  Proof.
+    intros (W & NL & NR) Lk Wk E.
+    assert (ND : NoDup (end_keys K g side)) by (destruct side; auto).
+    assert (Ln : length (node_ids g) = length (end_keys K g side)).
+    { unfold node_ids, end_keys. rewrite seq_length, map_length. auto. }
+    destruct (lookup_exact h sz h_lt _ _ m ND Ln E (enc kmer)) as (o & G & S). rewrite G. f_equal.
+    set (ends := ends_of K (g_seqs g) side) in *.
+    assert (Le : length (end_keys K g side) = length ends) by (rewrite end_keys_map, map_length; auto).
+    assert (Lg : length (g_seqs g) = length ends) by (unfold ends, ends_of; rewrite map_length; auto).
+    assert (Spec : forall i, o = Some i <-> (i < length ends /\ enc (nth i ends []) = enc kmer)).
+    { intros i. rewrite S. unfold node_ids. rewrite Lg, <- Le.
+      rewrite (in_combine_seq (enc kmer) (enc []) (end_keys K g side) 0 i).
+      rewrite Nat.sub_0_r, end_keys_map. fold ends. rewrite map_nth, map_length. split; intros (? & ?); split; auto; lia. }
+    assert (EndOk : forall i, i < length ends -> length (nth i ends []) = K /\ wf_dna (nth i ends [])).
+    { intros i Hi. unfold ends, ends_of. rewrite (nth_indep _ [] (term_kmer K [] side)) by (fold (ends_of K (g_seqs g) side); auto).
+      rewrite (map_nth (fun s => term_kmer K s side)). rewrite Forall_forall in W. rewrite <- Lg in Hi.
+      destruct (W (nth i (g_seqs g) []) (nth_In _ _ Hi)). apply term_kmer_ok; auto. }
+    unfold end_index. destruct (index_where (dna_eqb kmer) ends) as [j|] eqn:IW.
+    - apply (index_where_some _ []) in IW. destruct IW as (Hj & Ej). apply dna_eqb_eq in Ej.
+      apply Spec. split; auto.
+      f_equal. symmetry. exact Ej.
+    - destruct o as [i|]; auto. exfalso. destruct (proj1 (Spec i) eq_refl) as (Hi & Ei).
+      destruct (EndOk i Hi) as (Li & Wi). apply (enc_inj K) in Ei; auto.
+      pose proof (index_where_none _ _ IW (nth i ends []) (nth_In _ _ Hi)) as C.
+      rewrite Ei in C. rewrite (proj2 (dna_eqb_eq kmer kmer) eq_refl) in C. discriminate.
+  Qed.
+
+  (* search_kmer on the finished graph = "the node whose [side] end is this k-mer", never a panic *)
+  Theorem search_kmer_exact g d kmer side : good_graph g -> finish_serial h sz K g = Some d ->
+    length kmer = K -> wf_dna kmer ->
+    search_kmer h d kmer side = Some (end_index (ends_of K (g_seqs g) side) kmer).
+  Proof.
+    intros G F Lk Wk. unfold finish_serial in F.
+    destruct (bhm_new h sz (end_keys K g DLeft) (node_ids g)) as [l|] eqn:EL; [|discriminate].
+    destruct (bhm_new h sz (end_keys K g DRight) (node_ids g)) as [r|] eqn:ER; [|discriminate].
+    inversion F; subst d. unfold search_kmer. cbn [d_left d_right].
+    destruct side; eapply index_lookup; eauto.
+  Qed.
+
+  (* find_link on the finished graph is the list-level specification *)
+  Theorem find_link_exact g d kmer dr : good_graph g -> finish_serial h sz K g = Some d ->
+    length kmer = K -> wf_dna kmer ->
+    find_link h d kmer dr = Some (find_link_spec K (g_stranded g) (g_seqs g) kmer dr).
+  Proof.
+    intros G F Lk Wk.
+    assert (B : d_base d = g).
+    { unfold finish_serial in F. destruct (bhm_new h sz (end_keys K g DLeft) (node_ids g)); [|discriminate].
+      destruct (bhm_new h sz (end_keys K g DRight) (node_ids g)); [|discriminate]. inversion F; auto. }
+    assert (Lr : length (rc kmer) = K) by (rewrite rc_length; auto).
+    pose proof (rc_wf kmer) as Wr.
+    unfold find_link, find_link_spec, find_link_ends. rewrite B.
+    destruct dr; rewrite !(search_kmer_exact g d _ _ G F) by auto.
+    - destruct (end_index (ends_of K (g_seqs g) DRight) kmer); auto.
+      destruct (g_stranded g); auto.
+      destruct (end_index (ends_of K (g_seqs g) DLeft) (rc kmer)); auto.
+    - destruct (end_index (ends_of K (g_seqs g) DLeft) kmer); auto.
+      destruct (g_stranded g); auto.
+      destruct (end_index (ends_of K (g_seqs g) DRight) (rc kmer)); auto.
+  Qed.
+End GraphLookup.
+
+(* ------------------------------------------------------------------ schedules exist: the executable scheduler stays inside the step relation *)
+Lemma exec1_step slots st ev : exec1 slots st ev = st \/ step1 slots st (exec1 slots st ev).
+Proof.
+  destruct ev as (i, stale). unfold exec1. destruct (i <? length slots) eqn:L; cbn [negb]; auto.
+  apply Nat.ltb_lt in L. destruct (nth i (pcs st) Ds) eqn:P; auto; right.
+  - destruct (bget (sc st) (slot slots i) && negb stale) eqn:B.
+    + apply andb_prop in B. destruct B. apply s_read_set; auto.
+    + apply s_read_clear; auto.
+  - apply s_fetch_or; auto.
+  - apply s_collide; auto.
+Qed.
+Lemma run1_reach slots sched : forall st, clos_refl_trans _ (step1 slots) st (run1 slots sched st).
+Proof.
+  induction sched as [|ev sched IH]; intros st; cbn; [apply rt_refl|].
+  eapply rt_trans; [|apply IH]. destruct (exec1_step slots st ev) as [->|S]; [apply rt_refl|apply rt_step; auto].
+Qed.
+Lemma done1b_done1 slots st : done1b slots st = true -> done1 slots st.
+Proof.
+  unfold done1b, done1. intros H i Hi. rewrite forallb_forall in H. apply H. apply in_seq. lia.
+Qed.
+
+Lemma exec2_step slots c st i : exec2 slots c st i = st \/ step2 slots c st (exec2 slots c st i).
+Proof.
+  unfold exec2. destruct (i <? length slots) eqn:L; cbn [negb]; auto.
+  apply Nat.ltb_lt in L. destruct (nth i (pcs2 st) Qnone) eqn:P; auto; right.
+  - apply f_read; auto.
+  - apply f_remove; auto.
+Qed.
+Lemma run2_reach slots c sched : forall st, clos_refl_trans _ (step2 slots c) st (run2 slots c sched st).
+Proof.
+  induction sched as [|ev sched IH]; intros st; cbn; [apply rt_refl|].
+  eapply rt_trans; [|apply IH]. destruct (exec2_step slots c st ev) as [->|S]; [apply rt_refl|apply rt_step; auto].
+Qed.
+
+(* finish() under any schedule answers find_link by the list-level specification *)
+Theorem find_link_exact_par h sz (h_lt : forall iter n k, h iter (sz n) k < sz n) K g d kmer dr :
+  good_graph K g -> finish_par h sz K g (Some d) -> length kmer = K -> wf_dna kmer ->
+  find_link h d kmer dr = Some (find_link_spec K (g_stranded g) (g_seqs g) kmer dr).
+Proof.
+  intros G F. apply (finish_par_eq h sz h_lt) in F. symmetry in F. apply (find_link_exact h sz h_lt); auto.
+Qed.
